@@ -140,12 +140,14 @@ void SocketAsyncImpl::DriverConnect(ConnectHandler const &onConnect)
 void SocketAsyncImpl::DriverReceive(ReceiveHandler const &onReceive)
 {
   try {
-    auto buffer = buff->Receive();
-    if(buffer->empty()) {
-      // TLS socket received handshake data only
-    } else {
+    do {
+      auto buffer = buff->Receive();
+      if(buffer->empty()) {
+        // TLS socket received handshake data only
+        break;
+      }
       onReceive(std::move(buffer));
-    }
+    } while(buff->sock->DriverReceivePending());
   } catch(std::runtime_error const &e) {
     onError(e.what());
   }
